@@ -23,14 +23,21 @@ Proved here:
 FULL-STRENGTH STATEMENT (kept visible; not proved):
     theorem layout_refines_asm : run fs main = .done o → o.success → SingleFile fs main →
       ∃ p : List Layout.Stmt, IsAbstraction fs main p ∧ Layout.run p = .ok img ∧ ∀ a, img.get a = abs o.image a
-  (so that `Layout.layout_refines` gives `abs o.image = Ref.layout p`).  Missing: the step from the operation
-  history to a PROGRAM of the layout core: (i) the history of a single-file run has the shape
-  statements ++ rewrites ++ [close] (statements never rewrite — `writeStmt` with `placed = false` —, tasks only
-  rewrite), (ii) the queue of `Asm` lists exactly the deferred first writes in order, so that the rewrites are the
-  `runTasks` of `Layout.run` for the program whose `emit` statements carry the bytes the tasks write, and
-  (iii) (Stage C) that these bytes are the statement's bytes in the final symbol table (C04/C08: `retry_commutes`).
-  The correspondence run compares `Asm.run`, `Layout.run` of the harness's abstraction and the reference on every
-  generated program (`model.asm.run`, `model.layout.run`, `model.layout.ref`).
+  (so that `Layout.layout_refines` gives `abs o.image = Ref.layout p`).  What exists towards it:
+  * the deferred path as exact equations (Lemmas/AsmDefer.lean): `instr_deferred` (placeholder of the final length +
+    queued task carrying the front-end state), `instr_task_active` / `task_rewrites_range` (the task rewrites exactly
+    the placeholder range with the final bytes, nothing else changes), `localLoop_chain`, `run_of_statements_tasks`;
+    used end to end for printed programs in C19 `show_run_forward` and C20 `listing_roundtrip`;
+  * the region-level theorem below, for every project.
+  Still missing for the program-level statement on ARBITRARY single-file sources: (i) the history of a single-file run
+  has the shape statements ++ rewrites ++ [close] — the history carried by `Ext` is existential and does not record
+  that statements only `place` and tasks only `rewrite`; (ii) the queue of `Asm` lists exactly the deferred first writes
+  in order, so that the rewrites are the `runTasks` of `Layout.run` for the program whose `emit` statements carry the
+  bytes the tasks write; (iii) that these bytes are the statement's bytes in the final symbol table for arbitrary
+  operand expressions — the general retry theorem for `Front.assemble` over a growing table (C08 `retry_commutes` /
+  `eval_commutes` per operand, plus the stability of already evaluated operands); for the printed instructions of
+  C19/C20 this is `Show.show_retry`.  The correspondence run compares `Asm.run`, `Layout.run` of the harness's
+  abstraction and the reference on every generated program (`model.asm.run`, `model.layout.run`, `model.layout.ref`).
 -/
 namespace Trion.Asm
 open Trion Trion.SegLayout
